@@ -51,7 +51,7 @@ func waitFor(max time.Duration, cond func() bool) bool {
 }
 
 func unitC17(e common.Env, p *common.Part) {
-	p.Rule = "3..5 real endpoints on 127.0.0.1; payload lengths {0,1,31,32,33,255,256,65535,65536,1 MiB, limit-1, limit, limit+1}; type/topic forms (types 1,2 with a 32-byte topic; types 0,3,9 without); 1..8 concurrent sending goroutines per connection; 480 (thorough 3000) fresh peer handles whose first Send is issued by 8 goroutines released together; faults, each in turn: a peer that never listened, a listener closed mid-run, a peer that accepts but never reads, an authenticated client writing a truncated frame / an oversize length / garbage; oracle: per (connection, goroutine) sequence equality and multiset equality on ids and SHA-256 of type/topic/payload at the receiver, oversize never delivered, process alive, messages between healthy peers all received; distinct key = (scenario, size, form, senders, fault); non-trivial when >=2 concurrent senders, a boundary size or a fault is involved"
+	p.Rule = "3..5 real endpoints on 127.0.0.1; payload lengths {0,1,31,32,33,255,256,65535,65536,1 MiB, limit-1, limit, limit+1}; type/topic forms (types 1,2 with a 32-byte topic; types 0,3,9 without); 1..8 concurrent sending goroutines per connection; 480 (thorough 3000) fresh peer handles whose first Send is issued by 8 goroutines released together; faults, each in turn: a peer that never listened, a listener closed mid-run, a peer that accepts but never reads, a peer whose port accepts TCP connections but never answers the TLS handshake, a peer that listens but never accepts, an authenticated client writing a truncated frame / an oversize length / garbage; oracle: per (connection, goroutine) sequence equality and multiset equality on ids and SHA-256 of type/topic/payload at the receiver, oversize never delivered, process alive, messages between healthy peers all received; distinct key = (scenario, size, form, senders, fault); non-trivial when >=2 concurrent senders, a boundary size or a fault is involved"
 	p.Assumptions = append(p.Assumptions, "the 10 s enqueue stall towards a dead peer is reported, not judged; 'all received' is bounded by message count with a 60 s watchdog; the id of a message rides in its topic (types 1,2) or the payload head")
 	type scen struct {
 		name string
@@ -399,6 +399,31 @@ func unitC17(e common.Env, p *common.Part) {
 		isolate("accepting but never reading", func(env *netEnv) string {
 			env.listen(2, false)
 			return env.nodes[2].addr
+		}, 600),
+		// the peer's port is open but nobody completes the TLS handshake there (a hung process): the TCP connection is accepted and
+		// then nothing is ever said, or it is never even accepted (the kernel completes the TCP handshake from the backlog)
+		isolate("accepting TCP connections but never answering the TLS handshake", func(env *netEnv) string {
+			l, _ := net.Listen("tcp", "127.0.0.1:0")
+			go func() {
+				var keep []net.Conn
+				for {
+					c, err := l.Accept()
+					if err != nil {
+						for _, k := range keep {
+							k.Close()
+						}
+						return
+					}
+					keep = append(keep, c)
+				}
+			}()
+			go func() { time.Sleep(100 * time.Second); l.Close() }()
+			return l.Addr().String()
+		}, 600),
+		isolate("listening but never accepting a connection", func(env *netEnv) string {
+			l, _ := net.Listen("tcp", "127.0.0.1:0")
+			go func() { time.Sleep(100 * time.Second); l.Close() }()
+			return l.Addr().String()
 		}, 600),
 	)
 	// --- scenario F: sending side under back-pressure. The peer is not listening yet while one goroutine sends more messages than
